@@ -78,6 +78,7 @@ pub fn sigma04() -> Vec<char> {
         0x13A0, // Cherokee A (lowercase unassigned in 6.3.0)
         0x20,   // space (ID_DIS)
         0x1C5,  // titlecase digraph (ID_DIS, has lowercase)
+        0x334,  // combining overlay: ccc 1, NFC_QC=Yes, does not compose - sits between a base and a composing mark
     ]
     .iter()
     .map(|c| char::from_u32(*c).unwrap())
@@ -112,12 +113,35 @@ pub fn run(env: &Env, run: &Run) -> (Stats, Coverage) {
                 }
             }
         }
+        for a in alias_chars(c) {
+            for l in [vec![x, a as u32], vec![a as u32, x, 0x61]] {
+                let s = from_cps(&l);
+                for p in [Prof::Ucm, Prof::Ucp] {
+                    check_op(env, p, Op::Enforce, &s, st);
+                }
+            }
+        }
+    }));
+
+    // structural families: pumped runs a^k b / b a^k / a^k b a (k around 8, 16, 32, 64 and, for a
+    // few symbols, 128..1025) and every ASCII character at every offset of 7..33-byte ASCII strings
+    let fam = {
+        let mut v = pumped(&sigma, &PUMP_LENGTHS);
+        v.extend(pumped(&sigma[..sigma.len().min(6)], &PUMP_LENGTHS_LONG));
+        v.extend(ascii_blocks());
+        v
+    };
+    st.merge(run_family(&fam, |s, st| {
+        for p in [Prof::Ucm, Prof::Ucp] {
+            check_op(env, p, Op::Prepare, s, st);
+            check_op(env, p, Op::Enforce, s, st);
+        }
     }));
     st.sample(json!({"profile": "UsernameCaseMapped", "input": ["U+FF21", "U+212A"], "expected": "Err(BadCodepoint{0x212a, 1, SpecClassDis}) - validation happens after width mapping and before case mapping"}));
     st.sample(json!({"profile": "UsernameCasePreserved", "input": ["U+FF76", "U+FF9E"], "expected": "Ok(U+30AC): width mapping then NFC composes"}));
     st.sample(json!({"profile": "UsernameCaseMapped", "input": ["U+05D0", "a"], "expected": "Err(Invalid) from the directionality rule"}));
     let cov = Coverage {
-        rule: format!("every string of length <= {} over a 27-symbol alphabet chosen so that every pair of steps interacts (width x validation, width x NFC, case x NFC, case x validation order, contextual, RTL) x 2 profiles x {{prepare, enforce}} + every scalar value in 7 templates; oracle = width(UnicodeData decomposition tags) -> non-empty -> IdentifierClass(first offender) [-> lowercase] -> NFC -> non-empty -> directionality (implementation's own rule as a black box, C09 owns it); non-trivial = at least two steps change the string, or the failure comes from step >= 3", n),
+        rule: format!("every string of length <= {} over a 28-symbol alphabet chosen so that every pair of steps interacts (width x validation, width x NFC, case x NFC, case x validation order, contextual, RTL) x 2 profiles x {{prepare, enforce}} + pumped runs and ASCII block strings + every scalar value in 7 templates and next to each of its bit-16..20 aliases; oracle = width(UnicodeData decomposition tags) -> non-empty -> IdentifierClass(first offender) [-> lowercase] -> NFC -> non-empty -> directionality (implementation's own rule as a black box, C09 owns it); non-trivial = at least two steps change the string, or the failure comes from step >= 3", n),
         alphabet: json!(sigma.iter().map(|c| format!("U+{:04X}", *c as u32)).collect::<Vec<_>>()),
         bound_completed: format!("length <= {} ({} strings) x 2 profiles x 2 ops; sweep 1,112,064 x 7 templates x 2 x 2", n, tree_size(sigma.len(), n)),
         exhaustive: false,
